@@ -50,14 +50,39 @@ def install_stubs(I):
         # `?` -> one arbitrary character; a pattern with `[` gets the (always possible) answer "no match".
         I.adversarial.append('glob')
         n = len(I.adversarial)
+        # decide the pattern's shape (forks on symbolic characters)
+        kinds = []
+        for c in pat:
+            if hlib.truthy(I, ch_eq(c, 42)): kinds.append('*')
+            elif hlib.truthy(I, ch_eq(c, 63)): kinds.append('?')
+            elif hlib.truthy(I, ch_eq(c, 91)): kinds.append('[')
+            elif hlib.truthy(I, ch_eq(c, 93)): kinds.append(']')
+            elif hlib.truthy(I, ch_eq(c, 33)): kinds.append('!')
+            elif hlib.truthy(I, ch_eq(c, 47)): kinds.append('/')
+            else: kinds.append('c')
+        if kinds and kinds[0] == '/': return []      # absolute pattern: answer "no such file" (always possible)
+        # glob::Pattern::new errors: `***`, `**` not forming a whole component, unclosed `[`
+        i = 0; n_ = len(kinds)
+        while i < n_:
+            if kinds[i] == '*':
+                j = i
+                while j < n_ and kinds[j] == '*': j += 1
+                if j - i > 2: return None
+                if j - i == 2:
+                    if (i > 0 and kinds[i - 1] != '/') or (j < n_ and kinds[j] != '/'): return None
+                    return []            # recursive wildcard: answer "no match"
+                i = j; continue
+            if kinds[i] == '[':
+                j = i + 1
+                if j < n_ and kinds[j] == '!': j += 1
+                j += 1
+                while j < n_ and kinds[j] != ']': j += 1
+                if j >= n_: return None
+                return []                # valid character class: answer "no match"
+            i += 1
         name = []
-        prev_star = False
-        for i, c in enumerate(pat):
-            if hlib.truthy(I, ch_eq(c, 91)): return []
-            star = hlib.truthy(I, ch_eq(c, 42))
-            if star and prev_star: return []          # `**` has directory-recursion semantics: answer "no match"
-            prev_star = star
-            if star or hlib.truthy(I, ch_eq(c, 63)):
+        for i, (c, k) in enumerate(zip(pat, kinds)):
+            if k in '*?':
                 name.append(I.sym_char('glob%d_%d' % (n, i), exclude='/.'))
             else:
                 name.append(c)
@@ -172,7 +197,7 @@ class NativeEnv:
         self.nat.close(); self.nat_empty.close()
         shutil.rmtree(self.dir, ignore_errors=True); shutil.rmtree(self.empty, ignore_errors=True)
 
-BASE_FILES = ('f1', 'f2', 'a', 'aa', 'aaa', 'aaaa')
+BASE_FILES = ('f1', 'f2')
 def ok_filename(f):
     parts = f.split('/')
     return bool(f) and not f.startswith('/') and '..' not in parts and '.' not in parts and '\0' not in f and '' not in parts[:-1]
@@ -231,6 +256,8 @@ def minimize(ne, styles, args, pos):
         ln = render(styles, [''.join(x) for x in av], pos)
         k = (ln, pos)
         if k not in ne.cache:
+            # adversarial file system: a file that matches each argument read as a glob pattern
+            make_files(ne.dir, [''.join('x' if ch in '*?' else ch for ch in x) for x in av if any(ch in '*?' for ch in x)])
             ne.cache[k] = concrete_check(ne.nat, ln, [''.join(x) for x in av], pos)
         return ne.cache[k]
     label = bad(args)
@@ -308,7 +335,16 @@ def run_instance(prog, inst, tier, seed, deadline):
             key, margs, nlabel = minimize(ne, inst['styles'], args, inst['pos'])
             return dict(label='crash:' + str(l.msg), line=line, args=args, styles=inst['styles'], pos=inst['pos'],
                         key=key or ('unreproduced-crash:%s' % inst['name']), min_args=margs, native_label=nlabel)
-        res = hsupport.run_paths(prog, body(inst), deadline, on_ok=on_ok, on_violation=on_violation, on_panic=on_panic)
+        def on_budget(l, I):
+            # step budget exhausted: a hang candidate; it counts only if the native build hangs too
+            if l.inputs is None: return None
+            args = args_of(l)
+            line = render(inst['styles'], args, inst['pos'])
+            if concrete_check(ne.nat, line, args, inst['pos']) != 'hang': return None
+            key, margs, nlabel = minimize(ne, inst['styles'], args, inst['pos'])
+            return dict(label='hang', line=line, args=args, styles=inst['styles'], pos=inst['pos'], key=key, min_args=margs, native_label=nlabel)
+        res = hsupport.run_paths(prog, body(inst), deadline, on_ok=on_ok, on_violation=on_violation, on_panic=on_panic,
+                                 on_budget=on_budget, step_budget=400_000)
         # unpack multi-violation leaves
         flat = []
         for v in res['violations']:
